@@ -701,8 +701,19 @@ func c05CheckSpecial(w *explore.Worker, c c05Case) {
 	})
 }
 
+var c05Thorough bool
+
 func c05Bitmaps(k []int) [][8]byte {
 	out := [][8]byte{{}, world.AllAccess}
+	if c05Thorough && len(k) > 0 {
+		for i := 0; i < 64; i++ {
+			for _, g := range k {
+				if i != g {
+					out = append(out, setBits(g, i), allBut(g, i))
+				}
+			}
+		}
+	}
 	for i := 0; i < 64; i++ {
 		out = append(out, setBits(i), allBut(i))
 	}
@@ -713,6 +724,7 @@ func c05Bitmaps(k []int) [][8]byte {
 }
 
 func runC05(w *explore.Worker) {
+	c05Thorough = w.Thorough
 	var cases []c05Case
 	for _, k := range c05Kinds {
 		for _, b := range c05Bitmaps(k.G) {
